@@ -59,6 +59,11 @@ def run(facts, R):
         if t["k"] == "call":
             for o in t["args"]:
                 if "move" in o and not o["move"]["p"] and o["move"]["l"] in gl:
+                    if callee_matches(t["callee"], "std::mem::drop", "core::mem::drop"):
+                        # `drop(guard)` runs the hooks right there: that is the guard doing its job (the liveness rule below still
+                        # requires it to be held while the reader runs)
+                        R.ok("guard-owns-disconnect", hc.path, "explicit drop(guard)", t.get("span"), "mem::drop runs Drop at this point")
+                        continue
                     moves.append(t.get("span"))
     R.check(not moves, "guard-owns-disconnect", hc.path, "guard never moved / forgotten / wrapped",
             "the DisconnectGuard is moved out of its variable at %s (mem::forget, ManuallyDrop, Box::leak or a spawned task would skip or delay the hooks)" % moves, gs.get("span"),
@@ -163,6 +168,7 @@ def run(facts, R):
 
     end_signal_rule(facts, R)
     handler_token_rule(facts, R)
+    ctx_passed_through_rule(facts, R)
 
     # ---------------- registry-pairing / hooks-before-reader -------------------------------------------------------
     hooks = [(i, t) for i, t in hc.calls() if t["callee"]["name"] == "call" and "on_connect" in render(s.op(t["args"][0]))]
@@ -270,6 +276,47 @@ def handler_token_rule(facts, R):
                     "a handler's CallContext is built on %s: on that path the signal is not the connection's token, so the handler does not observe cancellation when the "
                     "connection ends" % [render_n(v)[:100] for v in vals if "conn_token" not in render_n(v)][:3], st.get("span"), "TokenSignal(conn_token.clone())")
     R.floor("handlers-observe-connection-token", n, 2, "TokenSignal constructions (inline and off-reader)")
+
+
+def ctx_passed_through_rule(facts, R):
+    """(handlers-observe-connection-token, second half) between the connection and the handler the CallContext travels through
+    routers, mounts, wrappers and middleware; each of them must hand on the context it was given.  A dispatcher that builds a
+    fresh CallContext for its callee (new / detached) keeps method and peer but not the cancel signal: the callee never observes
+    the connection ending."""
+    n = 0
+    for b in list(facts.bodies.values()):
+        if not (b.path.startswith(("server::", "<server::", "registry::", "<registry::", "middleware::", "<middleware::", "server_request::")) or "HandlerErased" in b.path):
+            continue
+        ctx_params = [a for a in range(1, b.argc + 1) if "peer::CallContext" in b.local_ty(a)]
+        if not ctx_params:
+            continue
+        bs = Sym(b)
+        for i, t in b.calls():
+            tys = t.get("arg_tys") or []
+            if t["callee"]["path"].startswith("peer::CallContext"):
+                continue
+            for k, ty in enumerate(tys):
+                if "peer::CallContext" not in ty or k >= len(t["args"]):
+                    continue
+                n += 1
+                v = bs.op(t["args"][k])
+                while v[0] == "call" and v[1].rsplit("::", 1)[-1] in ("deref", "as_ref", "borrow") and len(v[2]) == 1:
+                    v = v[2][0]
+                ok = v[0] == "arg" and v[1] in ctx_params
+                if v[0] == "agg" and v[1] == "tuple":
+                    # the argument pack of a closure call `f(ctx, value)`
+                    ok = any(e_[0] == "arg" and e_[1] in ctx_params for _, e_ in v[3])
+                if not ok and v[0] == "agg" and str(v[1]).endswith("CallContext"):
+                    # a re-addressed copy (other `method`) is fine as long as it carries the received context's peer and cancel signal
+                    d_ = dict(v[3])
+
+                    def _of_ctx(e_, f_):
+                        return e_ is not None and e_[0] == "field" and e_[2] == f_ and e_[1][0] == "arg" and e_[1][1] in ctx_params
+                    ok = _of_ctx(d_.get("cancel"), "cancel") and _of_ctx(d_.get("peer"), "peer")
+                R.check(ok, "handlers-observe-connection-token", b.path, "the context received is the context handed on",
+                        "%s passes %s to %s instead of the CallContext it was given: the callee's context has no cancel signal, so a handler behind it does not observe "
+                        "cancellation when the connection ends" % (b.path.rsplit("::", 1)[-1], render_n(v)[:100], t["callee"]["path"].rsplit("::", 2)[-1]), t.get("span"), "ctx forwarded")
+    R.floor("handlers-observe-connection-token", n, 6, "calls forwarding a CallContext parameter")
 
 
 def _through_capture(facts, b, v, depth=0):
